@@ -112,8 +112,9 @@ def configs(tier):
                 for tmax in ('inf', 'sym'):
                     out.append(dict(c, family='simple', full=full, tmax=tmax, truncate=(tmax == 'inf'), wstub=None, tags=['simple'] + c['tags'] + ['tmax:' + tmax]))
     for c in C15.configs(tier):
-        if c['graph'] == 'P3' and not c['full']:
+        if c['graph'] == 'P3':
             out.append(dict(c, family='complex', tags=['complex'] + c['tags']))
+            out.append(dict(c, family='complex', tmax='sym', tags=['complex', 'tmax:sym'] + c['tags']))
     return out
 
 
